@@ -393,6 +393,12 @@ class Yields:
         hook = getattr(self.con, "at_yield", None)
         if hook:
             hook(ex, ordinal, ynode, value, st)
+        # guarantee side of the rely between the node's processes: whenever this process gives up control the
+        # shared accounting state satisfies the clauses the other processes assume when they resume
+        gua = getattr(self.con, "guarantee", None)
+        if gua:
+            for nm, cl in gua(st):
+                ctx.oblige("yield%d.guarantee.%s" % (ordinal, nm), st, [cl], "yield-inv", lineno, ("C17",))
         if isinstance(value, VOpaque) and value.tag == "any_of":
             # an any_of condition that has already been processed: the generator continues at once (K-event:
             # yielding a processed event does not give control back to the kernel)
